@@ -239,6 +239,9 @@ class Emitter:
         if kind == "EnumConstantDecl":
             et = (rd.get("type") or {}).get("qualType", "")
             cn = ident(et.split("::")[-1]) + "__" + name if et and not et.startswith("(") else name
+            if self.enum_consts.get(cn, (et, name)) != (et, name):
+                # same-named constant of two enums with the same last name (e.g. Action::State / activity::State)
+                cn = ident("_".join(et.split("::")[-2:])) + "__" + name
             self.enum_consts[cn] = (et, name)
             return cn
         if kind in ("ParmVarDecl", "VarDecl", "BindingDecl"):
